@@ -291,7 +291,8 @@ class JUnitReporter(Reporter):
 
         suite = ElementTree.Element(u'testsuite')
         feature_name = feature.name or feature_filename
-        suite.set(u'name', u'%s.%s' % (classname, feature_name))
+        suite.set(u'name', _escape_invalid_xml_chars(
+            u'%s.%s' % (classname, feature_name)))
 
         # -- BUILD-TESTCASES: From run_items (and scenarios)
         self._process_run_items_for(feature, report)
@@ -439,8 +440,9 @@ class JUnitReporter(Reporter):
             feature_name = self.make_feature_filename(feature)
 
         case = ElementTree.Element("testcase")
-        case.set(u"classname", u"%s.%s" % (classname, feature_name))
-        case.set(u"name", scenario.name or "")
+        case.set(u"classname", _escape_invalid_xml_chars(
+            u"%s.%s" % (classname, feature_name)))
+        case.set(u"name", _escape_invalid_xml_chars(scenario.name or ""))
         case.set(u"status", scenario.status.name)
         case.set(u"time", _text(round(scenario.duration, 6)))
 
@@ -475,7 +477,7 @@ class JUnitReporter(Reporter):
                 message = u"Undefined Step: %s" % step.name.strip()
                 failure = ElementTree.Element(u"failure")
                 failure.set(u"type", u"undefined")
-                failure.set(u"message", message)
+                failure.set(u"message", _escape_invalid_xml_chars(message))
                 case.append(failure)
 
             # -- ALWAYS ADD TO THE REPORT:
@@ -514,7 +516,7 @@ class JUnitReporter(Reporter):
                    (step_text, step.location)
             message = _text(step.exception).strip()
             xml_element.set(u'type', step.exception.__class__.__name__)
-            xml_element.set(u'message', message)
+            xml_element.set(u'message', _escape_invalid_xml_chars(message))
             text += _text(step.error_message)
         else:
             # -- MAYBE: Hook failure before any step is executed.
@@ -522,7 +524,9 @@ class JUnitReporter(Reporter):
             if scenario.exception:
                 failure_type = scenario.exception.__class__.__name__
             xml_element.set(u'type', failure_type)
-            xml_element.set(u'message', scenario.error_message.strip() or "")
+            # -- NOTE: error_message may be missing (example: cleanup-error).
+            message = (scenario.error_message or u"").strip()
+            xml_element.set(u'message', _escape_invalid_xml_chars(message))
             traceback_lines = traceback.format_tb(scenario.exc_traceback)
             traceback_lines.insert(0, u"Traceback:\n")
             text = _text(u"".join(traceback_lines))
